@@ -275,3 +275,22 @@ def u_ring_k2(ctx):
 
 REPLAYERS["ring[kernel mat_meiosis vs contract]"] = meiosis.replay_kernel
 REPLAYERS["ring[kernel dense_meiosis vs contract]"] = meiosis.replay_kernel
+
+
+# ---------------------------------------------------------------------------
+# the mate() protocols against the stack contracts (modular, all sizes)
+from contracts import mateproto
+
+
+def _reg_proto(name, scalar):
+    rel, cls, npar, prefix = mateproto.PROTO[name]
+
+    @unit(P, "proto[%s.mate, %s counts]" % (name, "scalar" if scalar else "per-cross array"), "A2", targets=[rel + ":" + cls + ".mate"])
+    def u(ctx):
+        (mateproto.prove_multi if name in mateproto.MULTI else mateproto.prove_simple)(ctx, name, scalar)
+    return u
+
+
+for _n in ("SelfCross", "TwoWayCross", "TwoWayDHCross", "ThreeWayCross", "ThreeWayDHCross", "FourWayCross", "FourWayDHCross"):
+    for _s in (False, True):
+        _reg_proto(_n, _s)
